@@ -914,6 +914,20 @@ pub fn gen_cand(r: &mut Rng, n: usize) -> Vec<String> {
             _ => 2 + r.below(24) as usize,
         };
         let steps = 3 + r.below(30) as usize;
+        if case % 10 == 9 {
+            // a crowd of connected peers we are interested in (more than the eleven connections a reply may open), then a reply
+            let crowd = 11 + r.below(4) as usize;
+            let mut ops: Vec<String> = vec![];
+            for k in 0..crowd {
+                ops.push(format!("a{}", 30 + k));
+                ops.push(format!("b{}:{}", 30 + k, "1".repeat(np)));
+            }
+            ops.push(format!("T{}", (0..3).map(|k| k.to_string()).collect::<Vec<_>>().join(".")));
+            ops.push(format!("K{}", 30));
+            ops.push(format!("K{}", 31));
+            out.push(format!("cand {} {} {}", np, tie_seed, ops.join(";")));
+            continue;
+        }
         set_tie_break_seed(Some(tie_seed));
         // one pass: the history is generated against a live session (the reply decides what a task can emit next)
         let ops: Vec<String> = rt().block_on(async {
